@@ -438,7 +438,12 @@ def _independence(case, p, pipes, d, names, want, applied):
             return []
         # (observed on the original itself and on a fresh copy of it: a copy made now must not pick up the change either)
         after = _eval_all([p], d, {}, omit_defaults=True)
-        after2 = _eval_all([p.copy()], d, {}, omit_defaults=True)
+        try:
+            after2 = _eval_all([p.copy()], d, {}, omit_defaults=True)
+        except Exception as e:  # noqa: BLE001
+            bad.append(f"after {applied}: update_defaults on the NEW pipeline, and the ORIGINAL can no longer be copied: "
+                       f"{type(e).__name__}: {str(e)[:120]}")
+            after2 = dict(before)
         for o in before:
             a, b2 = before[o], after2.get(o)
             if not isinstance(a, Exception) and not isinstance(b2, Exception) and a != b2:
